@@ -47,12 +47,18 @@ def gen(rng, tier):
             case['names'] = [f'Sn({1 + j % nruns}) cond{j}*bf(1)' for j in range(q)]
         yield case
     for j in range(3 + 3 * k):
-        yield info_case(rng, {0: 2, 1: 1, 2: 3}.get(j, rng.randint(1, 3)))
+        yield info_case(rng, {0: 2, 1: 1, 2: 3}.get(j, rng.randint(1, 3)),
+                        run_offset={0: 0, 1: 9, 2: 120}.get(j))
     for fp, path in [('C:\\study\\sub01\\func\\run1.nii,1', '/data/proj/glm'),
                      ('/old/place/func/uasub-01_run-2.nii,17  ', '/data/proj/glm/'),
                      ('/old/functional/func/x_func.nii,3', 'rel/glm'),
                      ('D:\\a\\b\\anat\\t1.nii,1', '/data/proj/glm'),
-                     ('', '/data/proj/glm'), ('func', 'glm')]:
+                     ('', '/data/proj/glm'), ('func', 'glm'),
+                     # mixed separators; a Windows-style GLM directory (no '/' in it: empty base)
+                     ('C:\\study/sub01\\func/run1.nii,1', '/data/proj/glm'),
+                     ('C:\\study\\func\\run1.nii,1', 'D:\\proj\\glm'),
+                     ('\\\\server\\share\\functional\\func\\x.nii,2  ', '/data/proj/../proj/glm'),
+                     ('C:\\nofunchere\\anat.nii,1', '/data/proj/glm')]:
         yield {'kind': 'relocate', 'fpath': fp, 'path': path}
     for _ in range(6 * k):
         segs = [''.join(rng.choice('abcxyz01') for _ in range(rng.randint(1, 5))) for _ in range(rng.randint(1, 4))]
@@ -93,18 +99,21 @@ def _np(m):
     return np.array([[float(F(x)) for x in r] for r in m])
 
 
-def info_case(rng, nruns):
+def info_case(rng, nruns, run_offset=None):
     """a whole SPM.mat (written by the harness): names, files, filters, design; then
     get_info_from_spm_mat, get_betas and get_residuals on it"""
     nscans = [rng.randint(3, 6) for _ in range(nruns)]
     filters = [[[rat(x) for x in row] for row in householder_basis(rng, t, 2)] for t in nscans]
     n, p = sum(nscans), rng.randint(1, 3)
     names = []
+    # SPM numbers the sessions of the design from 1; a model cut out of a longer experiment keeps
+    # its original session numbers, so multi-digit numbers occur
+    off = rng.choice([0, 0, 9, 120]) if run_offset is None else run_offset
     for r in range(nruns):
         for c in range(rng.randint(1, 2)):
-            names.append(f'Sn({r + 1}) {rng.choice(["face", "house", "A", "b2"])}{c}*bf(1)')
+            names.append(f'Sn({r + 1 + off}) {rng.choice(["face", "house", "A", "b2"])}{c}*bf(1)')
     for r in range(nruns):
-        names.append(f'Sn({r + 1}) constant')
+        names.append(f'Sn({r + 1 + off}) constant')
     if len(names) < 3:
         names.insert(0, 'Sn(1) extra*bf(1)')
     q = len(names)
@@ -155,8 +164,17 @@ def write_spm_mat(case):
     return d
 
 
+def image_code(fname):
+    """the content of a beta / ResMS image is a function of its *name*"""
+    import re
+    base = fname.replace('\\', '/').split('/')[-1]
+    m = re.match(r'beta_(\d+)\.nii$', base)
+    return int(m.group(1)) if m else 99 if base == 'ResMS.nii' else -1
+
+
 class _NitoolsRec(_Nitools):
-    """records which images are sampled; beta / ResMS images are coded by their position"""
+    """records which images are sampled; the samples of a beta / ResMS image are a function of
+    the image's name, so which rows come back as betas / ResMS shows which files were read"""
     def __init__(self, data):
         super().__init__(data)
         self.calls = []
@@ -166,7 +184,7 @@ class _NitoolsRec(_Nitools):
         self.calls.append((list(files), bool(use_dataobj)))
         if use_dataobj:
             return self.data.copy()
-        return np.array([[10.0 * i + j for j in range(self.data.shape[1])] for i in range(len(files))])
+        return np.array([[10.0 * image_code(f) + j for j in range(self.data.shape[1])] for f in files])
 
 
 def _impl_info(case):
@@ -258,10 +276,10 @@ def _result_info(case, answers):
             'beta_files': case['beta_files'], 'beta_names': a['beta_names'], 'run_number': a['run_number'],
             'rawdata_files': [f[len('ROOT/'):] if f.startswith('ROOT/') else f for f in a['rawdata_files']],
             'filter_shapes': [[t, 2] for t in case['nscans']],
-            'betas': {'files': [f[len('GLM/'):] if f else f for f in a['betas_files']] + ['ResMS.nii'],
+            'betas': {'files': [f[len('GLM/'):] if f else f for f in a['betas_images']],
                       'use_dataobj': False,
-                      'data': [[10.0 * i + j for j in range(p)] for i in range(k)],
-                      'resms': [10.0 * k + j for j in range(p)],
+                      'data': [[10.0 * image_code(f) + j for j in range(p)] for f in a['betas_data_images']],
+                      'resms': [10.0 * image_code(a['betas_resms_image']) + j for j in range(p)],
                       'reg_name': a['betas_reg_name'], 'run_number': a['betas_run_number']},
             'resid': {'files_are_raw': True, 'use_dataobj': True,
                       'residuals': [[float(F(x)) for x in row] for row in r['residuals']],
@@ -330,7 +348,16 @@ def oracle(case):
                         'expected': v, 'features': f}
         wb = {'files': [case['beta_files'][i] for i in idx] + ['ResMS.nii'],
               'reg_name': [parsed[i][1] for i in idx], 'run_number': [int(parsed[i][0]) for i in idx]}
+        p_ = len(case['data'][0])
+        wb['data'] = [[10.0 * (i + 1) + j for j in range(p_)] for i in idx]
+        wb['resms'] = [990.0 + j for j in range(p_)]
         for k_, v in wb.items():
+            if k_ in ('data', 'resms'):
+                if out['betas'][k_] != v:
+                    return {'what': f'get_betas: {k_} are not the samples of the '
+                            + ('beta images of the regressors of interest' if k_ == 'data' else 'ResMS image'),
+                            'observed': out['betas'][k_], 'expected': v, 'features': f}
+                continue
             if out['betas'][k_] != v:
                 return {'what': f'get_betas: {k_} are not those of the regressors of interest',
                         'observed': out['betas'][k_], 'expected': v, 'features': f}
@@ -418,9 +445,11 @@ def feats(case, impl_res):
         b.append('spm:multi_run')
     if case['kind'] == 'spm_info' and len(case['nscans']) == 1:
         b.append('spm:info_single_run')
+    if case['kind'] == 'spm_info' and any(len(nm.split(')')[0]) > 4 for nm in case['names']):
+        b.append('spm:run_number_digits')
     return {'kind': case['kind'], 'spm_op': {'spm': 'spm_filter', 'spm_info': 'spm_info'}.get(case['kind'], 'get_residuals'),
             'n_runs': len(case['nscans']), 'branches': b}
 
 
 BRANCHES = ['spm:filter', 'spm:resid', 'spm:multi_run', 'spm:relocate', 'spm:info',
-            'spm:info_single_run']
+            'spm:info_single_run', 'spm:run_number_digits']
